@@ -21,6 +21,11 @@ with Views() as v:
     for f in m.defined():
         fps.setdefault(f.cname, []).append(fingerprint(f))
     json.dump({k: sorted(set(x)) for k, x in sorted(fps.items())}, open(os.path.join(V, "sa", "lhsa", "known_fingerprints.json"), "w"), indent=0)
+    from lhsa.fingerprint import features
+    feats = {}
+    for f in m.defined():
+        feats.setdefault(f.cname, set()).update(repr(x) for x in features(f))
+    json.dump({k: sorted(x) for k, x in sorted(feats.items())}, open(os.path.join(V, "sa", "lhsa", "known_features.json"), "w"), indent=0)
     # struct layouts of the project's own types (for recognising a pure field rename and for 'a field the rules name is gone')
     types = {}
     for k, t in m.types.items():
